@@ -18,7 +18,7 @@ import numpy as np
 
 ID = 'C03'
 RULE = ('every whitelist (set of barcodes over ACGTN) up to the size bound x k in 0..2 x every query of that length, '
-        'through BarcodeParser.addBarcode/expand/getIndexCorrectedBarcodeAndHammingDistance; file-level layouts; '
+        'through BarcodeParser.addBarcode/expand/getIndexCorrectedBarcodeAndHammingDistance; file-level layouts x loading mode x accessor used before the first lookup; '
         'shipped whitelists against all 5^L queries. A case (whitelist,k) is non-trivial when at least one query is a '
         'tie that must be refused and at least one is corrected at distance >=1; states = (whitelist,k) pairs, '
         'transitions = lookups')
@@ -160,7 +160,9 @@ def file_cases():
             for lazy in ('eager', 'lazy_star', 'lazy_alias'):
                 for k in (0, 1, 2):
                     for wl in (('ACG', 'ACT', 'GGN'), ('AAA', 'CCC', 'TTT'), ('NAC', 'AAC', 'GTA')):
-                        yield {'kind': 'file', 'layout': layout, 'gz': gz, 'load': lazy, 'k': k, 'wl': list(wl)}
+                        # histories: other public accessors of the alias used before the first lookup
+                        for pre in ('none', 'getitem', 'getitem-other-alias', 'targetcount'):
+                            yield {'kind': 'file', 'layout': layout, 'gz': gz, 'load': lazy, 'k': k, 'wl': list(wl), 'pre': pre}
 
 
 def check_file(case):
@@ -205,9 +207,22 @@ def check_file(case):
             bp = BarcodeParser(barcodeDirectory=d, hammingDistanceExpansion=case['k'], lazyLoad=lazy)
         except Exception as ex:
             return [(f'file:{layout}:constructor-exception:{type(ex).__name__}', repr(ex))], (0, 0, 0)
+        pre = case.get('pre', 'none')
+        try:
+            if pre == 'getitem':
+                mapping = bp['mylist']
+                if mapping is None or dict(mapping) != dict(zip(wl, want_idx)):
+                    return [(f'file:{layout}:getitem-mapping-differs-from-file', {'got': None if mapping is None else dict(mapping)})], (0, 0, 0)
+            elif pre == 'getitem-other-alias':
+                bp['other']
+            elif pre == 'targetcount':
+                bp.getTargetCount('mylist')
+        except Exception as ex:
+            return [(f'file:{layout}:accessor-exception:{type(ex).__name__}', repr(ex))], (0, 0, 0)
         q_arr, q_strs = all_strings(3)
+        site = f'file:{layout}' + ('' if pre == 'none' else f':after-{pre}')
         return compare(lambda s: bp.getIndexCorrectedBarcodeAndHammingDistance(s, 'mylist'), wl, want_idx, case['k'],
-                       q_arr, q_strs, site=f'file:{layout}')
+                       q_arr, q_strs, site=site)
     finally:
         shutil.rmtree(d, ignore_errors=True)
 
@@ -300,7 +315,9 @@ def shards(tier):
             else:
                 for first in range(n - size + 1):
                     out.append(('mem', L, size, first, False))
-    out.append(('file',))
+    for li in range(len(LAYOUTS)):
+        for gz in (False, True):
+            out.append(('file', li, gz))
     if tier == 'quick':
         out.append(('shipped', 'barcodes', 'illumina_RP_indices', 0, 0, 5 ** 6))
         out.append(('shipped', 'barcodes', 'illumina_RP_indices', 1, 0, 5 ** 6))
@@ -342,8 +359,10 @@ def run_shard(shard, tier, acc):
             acc.count('empty_shards')
     elif kind == 'file':
         for case in file_cases():
+            if case['layout'] != LAYOUTS[shard[1]] or case['gz'] != shard[2]:
+                continue
             viols, (nq, ncorr, ntie) = check_file(case)
-            acc.case(case, transitions=nq, nontrivial=(ncorr > 0), outcome=f"file:{case['layout']}")
+            acc.case(case, transitions=nq, nontrivial=(ncorr > 0), outcome=f"file:{case['layout']}:{case['pre']}")
             for sig, d in viols:
                 acc.violation(sig, case, d)
     elif kind == 'shipped':
